@@ -365,6 +365,8 @@ def conformance_violations(cls, w):
                     bad.append((key, "ff-entries"))
                 else:
                     bad.append((key, kind))
+        if payload_mode and d.get("enc_algo") is None and (d.get("enc_key") is not None or d.get("enc_serializer") is not None):
+            bad.append(("enc_algo", "missing"))       # enc_key / enc_serializer without enc_algo
     return bad
 
 
